@@ -57,6 +57,13 @@ def canon_run(scen, obs):
     return [canon_native(st, o) for st, o in zip(scen['steps'], obs)]
 
 
+def vcanon(scen, pair):
+    """translator validation compares the order-free forms that natrun produces for order-dependent scenarios"""
+    if any(st[0] in ORDER_DEP for st in scen['steps']) and isinstance(pair, list) and len(pair) == 2:
+        return [canon_run(scen, pair[0]), canon_run(scen, pair[1])]
+    return pair
+
+
 def natrun(native, scen):
     other = with_flavour(scen, PAIRS[scen['flavour']])
     dep = any(st[0] in ORDER_DEP for st in scen['steps'])
@@ -167,4 +174,4 @@ def run(prop, tier, seed):
                 'outside': 'API present in one flavour only (with_capacity, sizeof, to_dot_with_attr on sync_ungraph)'},
         assumptions=['std models of engine A; RwLock single-thread semantics', 'hash iteration order choices are shared by ordinal between the two runs'],
         rule='work item = scenario of the other checks, executed on the plain flavour and on the sync flavour in one executor path; every observation compared term by term (z3)',
-        expected_cells=cells, symrun=symrun, natrun=natrun)
+        expected_cells=cells, symrun=symrun, natrun=natrun, vcanon=vcanon)
